@@ -59,6 +59,89 @@ def strip_tests(src):
     return src if i < 0 else src[:i]
 
 
+SRC_FILES = ["src/crypto/src/lib.rs", "src/crypto/src/encrypt.rs", "src/crypto/src/decrypt.rs", "src/crypto/src/noise.rs",
+             "src/crypto/src/scrypt.rs", "src/cli/src/keyring.rs", "src/cli/src/commands.rs", "src/cli/src/main.rs", "src/ffi/src/lib.rs"]
+CRATE_ROOT = {"src/crypto/src/": "src/crypto/src/lib.rs", "src/cli/src/": "src/cli/src/main.rs", "src/ffi/src/": "src/ffi/src/lib.rs"}
+INT_TYPES = r"(?:usize|u8|u16|u32|u64|u128|isize|i8|i16|i32|i64)"
+
+
+def _eval_int(expr, table):
+    """value of a constant integer expression over literals and already known constants, or None"""
+    import ast
+    e = re.sub(r"\bas\s+" + INT_TYPES + r"\b", "", expr)
+    e = re.sub(r"\b(\d[\d_]*|0x[0-9a-fA-F_]+)(?:" + INT_TYPES + r")\b", r"\1", e).replace("_", "") if re.search(r"\d_\d", e) or re.search(r"\d(?:usize|u\d+|i\d+)", e) else e
+    e = re.sub(r"\b(?:crate|self|super)::", "", e)
+    def sub(m):
+        return str(table[m.group(0)]) if m.group(0) in table else m.group(0)
+    e = re.sub(r"\b[A-Z][A-Z0-9_]*\b", sub, e)
+    try:
+        tree = ast.parse(e.strip(), mode="eval")
+    except SyntaxError:
+        return None
+    def ev(n):
+        if isinstance(n, ast.Expression): return ev(n.body)
+        if isinstance(n, ast.Constant) and isinstance(n.value, int): return n.value
+        if isinstance(n, ast.BinOp):
+            a, b = ev(n.left), ev(n.right)
+            if a is None or b is None: return None
+            if isinstance(n.op, ast.Add): return a + b
+            if isinstance(n.op, ast.Sub): return a - b
+            if isinstance(n.op, ast.Mult): return a * b
+            if isinstance(n.op, ast.Div) or isinstance(n.op, ast.FloorDiv): return a // b if b else None
+            if isinstance(n.op, ast.LShift): return a << b
+            if isinstance(n.op, ast.RShift): return a >> b
+        return None
+    return ev(tree)
+
+
+def const_table(rel):
+    """integer constants visible in file `rel`: its own `const NAME: T = EXPR;` items (any nesting), then those of the crate root"""
+    table = {}
+    files = [rel]
+    for pre, root in CRATE_ROOT.items():
+        if rel.startswith(pre) and root != rel:
+            files.append(root)
+    for f in reversed(files):          # crate root first, the file's own definitions override
+        src = strip_comments(strip_tests(read(f)))
+        items = re.findall(r"\bconst\s+([A-Z][A-Z0-9_]*)\s*:\s*" + INT_TYPES + r"\s*=\s*([^;]+);", src)
+        arrays = dict(re.findall(r"\bconst\s+([A-Z][A-Z0-9_]*)\s*:\s*\[\s*\w+\s*;\s*(\d+)\s*\]", src))
+        items = [(n, re.sub(r"\b([A-Z][A-Z0-9_]*)\.len\(\)", lambda m: arrays.get(m.group(1), m.group(0)), e)) for n, e in items]
+        for _ in range(3):             # constants defined in terms of later ones
+            for name, expr in items:
+                v = _eval_int(expr, table)
+                if v is not None:
+                    table[name] = v
+    return table
+
+
+def resolve_consts(src, rel):
+    """replace every use of a named integer constant by its value (definitions themselves are left alone)"""
+    table = const_table(rel)
+    if not table:
+        return src
+    pat = re.compile(r"(?<![\w:])(?:(?:crate|self|super)::)?(" + "|".join(sorted(map(re.escape, table), key=len, reverse=True)) + r")\b(?!\s*[:(!])")
+
+    def put(text):
+        def rep(k):
+            i = k.start()
+            if i > 0 and text[i - 1] == "." and not (i > 1 and text[i - 2] == "."):
+                return k.group(0)          # a field or method of that name, not the constant
+            return str(table[k.group(1)])
+        return pat.sub(rep, text)
+    out, pos = [], 0
+    for m in re.finditer(r"\bconst\s+[A-Z][A-Z0-9_]*\s*:[^;]*;", src):
+        out.append(put(src[pos:m.start()]))
+        out.append(m.group(0))
+        pos = m.end()
+    out.append(put(src[pos:]))
+    return "".join(out)
+
+
+def code(rel):
+    """the non-test code of a file without comments and with named integer constants resolved"""
+    return resolve_consts(strip_comments(strip_tests(read(rel))), rel)
+
+
 def grab(name, src, pattern, conv):
     m = re.search(pattern, src, re.S)
     if not m:
@@ -90,17 +173,24 @@ def rng(m):
 
 
 def extract():
-    enc = strip_tests(read("src/crypto/src/encrypt.rs"))
-    dec = strip_tests(read("src/crypto/src/decrypt.rs"))
-    lib = strip_tests(read("src/crypto/src/lib.rs"))
-    noise = strip_tests(read("src/crypto/src/noise.rs"))
-    kr = strip_tests(read("src/cli/src/keyring.rs"))
-    cmds = strip_tests(read("src/cli/src/commands.rs"))
+    # constant DEFINITIONS are read from the plain text; everything inside function bodies from the text with named
+    # integer constants resolved, so that `[0u8; HANDSHAKE_LEN]` and `[0u8; 128]` are the same thing to the translator
+    enc = code("src/crypto/src/encrypt.rs")
+    dec = code("src/crypto/src/decrypt.rs")
+    lib = code("src/crypto/src/lib.rs")
+    noise = code("src/crypto/src/noise.rs")
+    kr = code("src/cli/src/keyring.rs")
+    cmds = code("src/cli/src/commands.rs")
     v = {}
     v["encPrologue"] = grab("encPrologue", enc, r"const\s+PROLOGUE\s*:\s*\[u8;\s*4\]\s*=\s*\[([^\]]*)\]", bytes_list)
     v["encPassMagic"] = grab("encPassMagic", enc, r"const\s+PASS_FILE_MAGIC\s*:\s*\[u8;\s*4\]\s*=\s*\[([^\]]*)\]", bytes_list)
-    v["decAsymMagic"] = grab("decAsymMagic", dec, r"let\s+asym_v1\s*=\s*\[([^\]]*)\]", bytes_list)
-    v["decPassMagic"] = grab("decPassMagic", dec, r"let\s+pass_v1\s*=\s*\[([^\]]*)\]", bytes_list)
+    vff = dict(split_fns(dec)).get("valid_file_format", "")
+    lits = re.findall(r"\[\s*((?:0x[0-9a-fA-F]+|\d+)\s*(?:,\s*(?:0x[0-9a-fA-F]+|\d+)\s*){3}),?\s*\]", vff)
+    class _M:
+        def __init__(self, t): self.t = t
+        def group(self, i): return self.t
+    v["decAsymMagic"] = bytes_list(_M(lits[0])) if len(lits) >= 2 else (degraded.append("decAsymMagic") or DEFAULTS["decAsymMagic"])
+    v["decPassMagic"] = bytes_list(_M(lits[1])) if len(lits) >= 2 else (degraded.append("decPassMagic") or DEFAULTS["decPassMagic"])
     v["chunkSize"] = grab("chunkSize", lib, r"const\s+CHUNK_SIZE\s*:\s*u32\s*=\s*([0-9_x<\s]+);", intval)
     v["tagSize"] = grab("tagSize", lib, r"const\s+TAG_SIZE\s*:\s*usize\s*=\s*([0-9_x]+);", intval)
     for nm, key, src in (("SCRYPT_N", "scryptN", lib), ("SCRYPT_R", "scryptR", lib), ("SCRYPT_P", "scryptP", lib),
@@ -115,7 +205,7 @@ def extract():
     v["encodedPkLen"] = grab("encodedPkLen", kr, r"impl\s+TryFrom<&str>\s+for\s+EncodedPk.*?s\.len\(\)\s*!=\s*(\d+)", intval)
     v["hashLen"] = grab("hashLen", noise, r"const\s+HASH_LEN\s*:\s*usize\s*=\s*(\d+);", intval)
     v["dhLen"] = grab("dhLen", noise, r"const\s+DH_LEN\s*:\s*usize\s*=\s*(\d+);", intval)
-    v["protocolName"] = grab("protocolName", noise, r'SymmetricState::new\(\s*"([^"]+)"\s*\)', lambda m: m.group(1))
+    v["protocolName"] = grab("protocolName", noise, r'(?:SymmetricState::new\(\s*|const\s+\w+\s*:\s*&(?:\'static\s+)?(?:str|\[u8\])\s*=\s*b?)"(Noise_[^"]+)"', lambda m: m.group(1))
     v["tokenPattern"] = grab("tokenPattern", noise, r"let\s+pattern\s*=\s*vec!\[([^\]]*)\]",
                              lambda m: re.findall(r"Token::(\w+)", m.group(1)))
     v["encHdrCtr"] = grab("encHdrCtr", enc, r"chunk_header\[(\d*)\.\.(\d*)\]\s*\.copy_from_slice\(&chunk_number", rng)
@@ -127,7 +217,7 @@ def extract():
     v["skSalt"] = grab("skSalt", kr, r"let\s+salt\s*=\s*&key_bytes\[(\d*)\.\.(\d*)\]", rng)
     v["skCt"] = grab("skCt", kr, r"let\s+ciphertext\s*=\s*&key_bytes\[(\d*)\.\.(\d*)\]", rng)
     v["nonceOffset"] = grab("nonceOffset", lib, r"fn\s+chapoly_encrypt_noise.*?final_nonce_bytes\[(\d+)\.\.\]\s*\.copy_from_slice", intval)
-    v["lastFlagValue"] = grab("lastFlagValue", dec, r"if\s+last_chunk_indicator\s*==\s*(\d+)\s*\{", intval)
+    v["lastFlagValue"] = grab("lastFlagValue", dec, r"\blast_chunk_indicator\s*==\s*(\d+)\b", intval)
 
     # Drop / Zeroize table for the secret containers
     def drop_info(src, ty, field_pat):
@@ -166,8 +256,8 @@ PANIC_PAT = re.compile(
     r"\.copy_from_slice\(|\[[^\[\]\n]*\.\.[^\[\]\n]*\]|\b\w+\[[A-Za-z_][\w\s+*\-]*\]|\.len\(\)\s*-\s*\w+")
 
 
-def split_fns(src):
-    """yield (fn name, body text) for each fn with a body, by bracket matching (signatures may contain `;`, e.g. `[u8; 32]`)"""
+def split_fns(src, with_sig=False):
+    """yield (fn name, body text[, signature text]) for each fn with a body, by bracket matching (signatures may contain `;`, e.g. `[u8; 32]`)"""
     for m in re.finditer(r"\bfn\s+(\w+)\s*(<[^>{]*>)?\s*\(", src):
         # skip the parameter list
         depth, j = 1, m.end()
@@ -201,7 +291,10 @@ def split_fns(src):
                 if depth == 0:
                     break
             j += 1
-        yield m.group(1), src[i:j + 1]
+        if with_sig:
+            yield m.group(1), src[i:j + 1], src[m.start():i]
+        else:
+            yield m.group(1), src[i:j + 1]
 
 
 def strip_comments(s):
@@ -209,28 +302,130 @@ def strip_comments(s):
     return re.sub(r"/\*.*?\*/", "", s, flags=re.S)
 
 
+def local_names(sig_and_body):
+    """names a function binds: parameters, let-bindings (incl. tuple patterns), closure parameters, loop variables, match/if-let binders"""
+    names = set()
+    m = re.match(r"[^{]*", sig_and_body)
+    for n in re.findall(r"\b(?:mut\s+)?([a-z_]\w*)\s*:", sig_and_body[: sig_and_body.find("{") if "{" in sig_and_body else 0]):
+        names.add(n)
+    for pat in re.findall(r"\blet\s+(?:mut\s+)?(\([^)]*\)|[a-z_]\w*)", sig_and_body):
+        names.update(re.findall(r"[a-z_]\w*", pat.replace("mut ", " ")))
+    for pat in re.findall(r"\bfor\s+(\([^)]*\)|[a-z_]\w*)\s+in\b", sig_and_body):
+        names.update(re.findall(r"[a-z_]\w*", pat))
+    for pat in re.findall(r"\|([^|()]{1,60})\|", sig_and_body):
+        names.update(re.findall(r"\b([a-z_]\w*)\b(?!\s*::)", re.sub(r":[^,|]*", "", pat)))
+    for pat in re.findall(r"\b(?:Some|Ok|Err)\(\s*(?:ref\s+|mut\s+)?([a-z_]\w*)\s*\)\s*(?:=>|=)", sig_and_body):
+        names.add(pat)
+    names -= {"self", "mut", "ref", "_"}
+    return names
+
+
+def _balanced_back(text, i):
+    """start index of the postfix expression that ends at text[:i] (identifiers, paths, field/method chains, calls, indexing, `?`)"""
+    j = i
+    while j > 0:
+        c = text[j - 1]
+        if c.isspace():
+            k = j - 1
+            while k > 0 and text[k - 1].isspace():
+                k -= 1
+            # whitespace inside a method chain (`foo\n   .bar()`): continue only if what follows the blank is a `.`
+            if k > 0 and text[j:j + 1] == "." or (j < len(text) and text[j] == "."):
+                j = k
+                continue
+            break
+        if c in ")]":
+            depth, k = 0, j - 1
+            while k >= 0:
+                if text[k] in ")]":
+                    depth += 1
+                elif text[k] in "([":
+                    depth -= 1
+                    if depth == 0:
+                        break
+                k -= 1
+            j = max(k, 0)
+            continue
+        if c.isalnum() or c in "_.?:&!":
+            if c == "&" and not (j - 2 >= 0 and text[j - 2] in "(,= \n[&"):
+                break
+            j -= 1
+            continue
+        break
+    return j
+
+
+def _balanced_fwd(text, i):
+    """index just after the bracket that closes the one at text[i]"""
+    depth = 0
+    for k in range(i, len(text)):
+        if text[k] in "([{":
+            depth += 1
+        elif text[k] in ")]}":
+            depth -= 1
+            if depth == 0:
+                return k + 1
+    return len(text)
+
+
+def site_expr(body, m, kind):
+    """the panic-capable EXPRESSION (not the statement around it)"""
+    if kind in ("unwrap", "expect"):
+        a = _balanced_back(body, m.start())
+        return body[a:m.start()] + (".unwrap()" if kind == "unwrap" else ".expect(_)")
+    if kind in ("assert", "panic"):
+        o = body.find("(", m.start())
+        e = _balanced_fwd(body, o)
+        txt = body[m.start():e]
+        return re.sub(r'"[^"]*"', '"_"', txt)
+    if kind == "copy_from_slice":
+        a = _balanced_back(body, m.start())
+        o = body.find("(", m.start())
+        return body[a:_balanced_fwd(body, o)]
+    if kind == "sub":
+        a = _balanced_back(body, m.start())
+        return body[a:m.end()]
+    # index / slice: `name[ … ]`
+    txt = m.group(0)
+    if not re.match(r"\w", txt):           # the range form matched from `[`: prepend the indexed expression
+        a = _balanced_back(body, m.start())
+        txt = body[a:m.end()]
+    return txt
+
+
+def normalise(expr, locals_):
+    t = re.sub(r"\s+", " ", expr).strip()
+    t = re.sub(r"\b([a-z_]\w*)\b(?!\s*(?:\(|::|!))", lambda k: "_" if (k.group(1) in locals_ and not _is_field(t, k.start())) else k.group(1), t)
+    t = re.sub(r"\s*([\[\]().,&])\s*", r"\1", t)
+    t = re.sub(r"\s*([-+*<>=])\s*", r" \1 ", t).replace(". .", "..").replace(" .. ", "..")
+    t = re.sub(r"^(&mut |&)+", "", t)
+    return t[:160]
+
+
+def _is_field(t, i):
+    return i > 0 and t[i - 1] == "." and not (i > 1 and t[i - 2] == ".")
+
+
 def panic_sites():
+    """every panic-capable expression of the untrusted-input paths, keyed by (file, fn, kind, normalised expression) — local
+    variable names are anonymised and named constants resolved, so that renaming a local or naming a literal changes nothing;
+    duplicates are KEPT (the obligation is a multiset inclusion: a second `_.unwrap()` in a function is a new site)."""
     sites = []
     for rel, fns in UNTRUSTED.items():
-        src = strip_comments(strip_tests(read(rel)))
-        for name, body in split_fns(src):
+        src = code(rel)
+        for name, body, sig in split_fns(src, with_sig=True):
             if fns is not None and name not in fns:
                 continue
+            locs = local_names(sig + body)
             for m in PANIC_PAT.finditer(body):
-                # normalised text: the statement around the match, whitespace collapsed
-                a = max(body.rfind(";", 0, m.start()), body.rfind("{", 0, m.start()), body.rfind("}", 0, m.start())) + 1
-                b = body.find(";", m.end())
-                b = len(body) if b < 0 else b
-                text = re.sub(r"\s+", " ", body[a:b]).strip()[:160]
-                sites.append({"file": rel, "fn": name, "kind": kind_of(m.group(0)), "text": text})
-    # de-duplicate, stable order
-    seen, out = set(), []
-    for s in sites:
-        k = (s["file"], s["fn"], s["kind"], s["text"])
-        if k not in seen:
-            seen.add(k)
-            out.append(s)
-    return out
+                kind = kind_of(m.group(0))
+                if kind == "index" and re.match(r"\[\s*(?:0x[0-9a-f]+|\d+)\w*\s*;", m.group(0)):
+                    continue
+                text = normalise(site_expr(body, m, kind), locs)
+                if kind == "index" and re.match(r"^(vec!|\w+!)?\[", text):
+                    continue            # an array literal / macro, not an indexing
+                sites.append({"file": rel, "fn": name, "kind": kind, "text": text})
+    return sites
 
 
 def kind_of(tok):
@@ -259,37 +454,75 @@ FLOW_TOKENS = [
     (r"\.read_exact\(", "read_exact"), (r"\.read\(", "read"), (r"\.write_all\(", "write_all"), (r"\.write\(", "write"), (r"\.flush\(\)", "flush"),
     (r"chapoly_encrypt_noise\(", "seal"), (r"chapoly_decrypt_noise\(", "open"), (r"chapoly_encrypt_ietf\(", "seal_ietf"), (r"chapoly_decrypt_ietf\(", "open_ietf"), (r"chapoly::open\(", "aead_open"), (r"chapoly::seal\(", "aead_seal"),
     (r"noise_encrypt\(", "noise_write"), (r"noise_decrypt\(", "noise_read"), (r"hkdf_sha256\(", "hkdf"), (r"kestrel_crypto::scrypt\(|\bscrypt\(", "scrypt"), (r"valid_file_format\(", "magic_check"),
-    (r"return Err\((?:\w+::)?(\w+)", "err"), (r"chunk_number \+= 1", "ctr+=1"), (r"\bloop\s*\{", "loop"), (r"\bbreak;", "break"), (r"secure_random\(", "random"), (r"PrivateKey::generate\(", "random_key"),
+    (r"return Err\((?:\w+::)?(\w+)", "err"), (r"\.ok_or(?:_else)?\(\s*(?:\|\|\s*)?(?:\w+::)?(\w+)", "err"),
+    (r"\b\w+ \+= 1\b", "ctr+=1"), (r"\bloop\s*\{", "loop"), (r"\bbreak;", "break"), (r"secure_random\(", "random"), (r"PrivateKey::generate\(", "random_key"),
     (r"\.mix_hash\(", "mix_hash"), (r"\.mix_key\(", "mix_key"), (r"\.encrypt_and_hash\(", "encrypt_and_hash"), (r"\.decrypt_and_hash\(", "decrypt_and_hash"), (r"\.diffie_hellman\(", "dh"),
     (r"File::create\(", "file_create"), (r"\.append\(true\)", "open_append"), (r"\.truncate\(true\)", "open_truncate"), (r"OpenOptions::new\(", "open_options"),
     (r"lock_private_key\(", "lock"), (r"unlock_private_key\(", "unlock"), (r"encrypt::key_encrypt\(", "lib_key_encrypt"), (r"decrypt::key_decrypt\(", "lib_key_decrypt"),
     (r"encrypt::pass_encrypt\(", "lib_pass_encrypt"), (r"decrypt::pass_decrypt\(", "lib_pass_decrypt"), (r"open_output\(", "open_output"), (r"open_input\(", "open_input"), (r"open_keyring\(", "open_keyring"),
-    (r"ask_pass\(|confirm_password\(|confirm_new_pass\(", "ask_pass"), (r"println!\(", "println"), (r"\.zeroize\(\)", "zeroize"), (r"==\s*pk\.as_str\(\)|\.as_str\(\)\s*==", "str_eq"),
-    (r"final_nonce_bytes\[4\.\.\]", "nonce[4..]"), (r"to_le_bytes\(\)", "le_bytes"), (r"to_be_bytes\(\)", "be_bytes"), (r"if\s+ciphertext_length\s*>\s*chunk_size", "len>cs"), (r"last_chunk_indicator\s*==\s*1", "last==1"),
-    (r"ciphertext\.len\(\)\s*<\s*TAG_SIZE", "len<tag"), (r"message\.len\(\)\s*<\s*96", "len<96"),
+    (r"ask_user_stderr\(", "ask_user"), (r"ask_pass\(|confirm_password\(|confirm_new_pass\(", "ask_pass"), (r"println!\(", "println"), (r"\.zeroize\(\)", "zeroize"), (r"==\s*\w+\.as_str\(\)|\.as_str\(\)\s*==", "str_eq"),
+    (r"\b\w+\[4\.\.\]", "nonce[4..]"), (r"to_le_bytes\(\)", "le_bytes"), (r"to_be_bytes\(\)", "be_bytes"), (r"if\s+\w+\s*>\s*\w+\s*\{", "len>cs"), (r"\b\w+\s*==\s*1\b", "last==1"),
+    (r"\w+\.len\(\)\s*<\s*16\b|\.checked_sub\(16\)", "len<tag"), (r"\w+\.len\(\)\s*<\s*96\b", "len<96"),
 ]
+# thin wrappers whose skeleton is a SET of facts (which AEAD, nonce offset, byte order), not an order of effects
+UNORDERED = {"chapoly_encrypt_noise", "chapoly_decrypt_noise"}
+# names that are too generic to be recognised as "a call of the private helper of that name in this file"
+NOT_HELPERS = {"new", "from", "try_from", "fmt", "drop", "deref", "write", "flush", "read", "as_bytes", "as_str", "zeroize", "source", "main",
+               "generate", "clone", "default", "len", "get", "map", "ok", "err", "into", "iter", "next"}
 
 
 def flows():
+    """for each mirrored function: the sequence of significant calls / guards / early returns in source order, with
+    (a) named integer constants resolved, (b) calls of private helper functions of the same file expanded in place
+    (so extracting or inlining a helper does not change the skeleton), (c) calls of other mirrored functions kept as
+    `call:<fn>` tokens."""
     out = []
-    big = re.compile("|".join(f"(?P<t{i}>{pat})" for i, (pat, _) in enumerate(FLOW_TOKENS)))
+    mirrored = {}
     for rel, fn in FLOW_FNS:
-        src = strip_comments(strip_tests(read(rel)))
+        mirrored.setdefault(rel, set()).add(fn)
+    cache = {}
+
+    def bodies(rel):
+        if rel not in cache:
+            d, seen = {}, {}
+            for name, b in split_fns(code(rel)):
+                seen[name] = seen.get(name, 0) + 1
+                d.setdefault(name, b)
+            cache[rel] = {n: b for n, b in d.items() if seen[n] == 1}
+        return cache[rel]
+
+    def scan(rel, fn, body, depth, stack):
+        fns = bodies(rel)
+        helpers = [h for h in fns if h != fn and h not in NOT_HELPERS and h not in stack]
+        fixed = "|".join(f"(?P<t{i}>{pat})" for i, (pat, _) in enumerate(FLOW_TOKENS))
+        pat = fixed + ("|(?P<helper>(?<!\\w)(?:\\w+::)?(?P<hname>" + "|".join(map(re.escape, helpers)) + r")\()" if helpers else "")
+        seq = []
+        for m in re.finditer(pat, body):
+            if helpers and m.group("helper") is not None:
+                h = m.group("hname")
+                if h in mirrored.get(rel, ()):
+                    seq.append("call:" + h)
+                elif depth < 3:
+                    seq.extend(scan(rel, h, fns[h], depth + 1, stack | {fn}))
+                continue
+            for i, (tp, label) in enumerate(FLOW_TOKENS):
+                if m.group(f"t{i}") is not None:
+                    if label == "err":
+                        sub = re.match(tp, m.group(0))
+                        label = "err:" + (sub.group(1) if sub else "?")
+                    seq.append(label)
+                    break
+        return seq
+
+    for rel, fn in FLOW_FNS:
         body = None
-        for name, b in split_fns(src):
+        for name, b in split_fns(code(rel)):
             if name == fn:
                 body = b
                 break
-        seq = []
-        if body is not None:
-            for m in big.finditer(body):
-                for i, (pat, label) in enumerate(FLOW_TOKENS):
-                    if m.group(f"t{i}") is not None:
-                        if label == "err":
-                            sub = re.match(pat, m.group(0))
-                            label = "err:" + (sub.group(1) if sub else "?")
-                        seq.append(label)
-                        break
+        seq = scan(rel, fn, body, 0, frozenset()) if body is not None else []
+        if fn in UNORDERED:
+            seq = sorted(seq)
         out.append((rel.split("/")[-1] + "::" + fn, seq))
     return out
 
